@@ -162,13 +162,15 @@ func genEmptyDir(r *corr.Rand) (setup []string, threads [][]string) {
 // genIO: private handles of several goroutines on one file
 func genIO(r *corr.Rand) (setup []string, threads [][]string) {
 	h := corr.HexS
-	setup = []string{"create " + h("/a"), "h.write 0 68656c6c6f", "create " + h("/b"), "h.write 1 776f726c64"}
+	setup = []string{"create " + h("/a"), "h.write 0 68656c6c6f", "create " + h("/b"), "h.write 1 776f726c64", "create " + h("/c")} // (/c stays empty: its first write happens under contention)
 	nt := 2 + r.Intn(3)
 	for t := 0; t < nt; t++ {
 		// (most goroutines share /a; some work on a file of their own: nothing of one file may be shared with another)
 		f := "/a"
 		if r.Chance(35) {
 			f = "/b"
+		} else if r.Chance(35) {
+			f = "/c"
 		}
 		ops := []string{fmt.Sprintf("openfile %s %d 420", h(f), corr.Pick(r, []int{2, 2, 0, 0x402}))}
 		for k := 0; k < 2+r.Intn(4); k++ {
